@@ -20,25 +20,25 @@ const (
 )
 
 type Member struct {
-	Name  string
+	Name              string
 	NameLoneSurrogate bool
-	Val   *Node
+	Val               *Node
 }
 
 type Node struct {
-	Kind    Kind
-	B       bool
-	Num     string // number source text
-	Str     string // unescaped content
-	LoneSurrogate bool // content contained a \u escape that is an unpaired surrogate
-	Elems   []*Node
-	Members []Member
-	Start, End int // byte offsets of the value in the text
+	Kind          Kind
+	B             bool
+	Num           string // number source text
+	Str           string // unescaped content
+	LoneSurrogate bool   // content contained a \u escape that is an unpaired surrogate
+	Elems         []*Node
+	Members       []Member
+	Start, End    int // byte offsets of the value in the text
 }
 
 type parser struct {
-	b   []byte
-	pos int
+	b     []byte
+	pos   int
 	depth int
 }
 
